@@ -43,6 +43,9 @@ fn literal_leaves() -> Vec<(String, RE)> {
     for (l, t) in [
         ("empty", ""), ("quotes", "\"\""), ("ends-with-quote", "say \"hi\""), ("starts-with-quote", "\"hi\" said"), ("ends-with-backslash-quote", "a\\\""), ("only-quote", "\""), ("backslashes", "\\\\"), ("quote-backslash", "\\\""), ("backslash-n", "\\n"), ("newline-tab-cr", "\n\t\r"), ("slashes", "// not a comment"),
         ("crlf", "first\r\nsecond"), ("lf-cr", "a\n\rb"), ("bom-inside", "a\u{feff}b"), ("non-bmp", "😀\u{10FFFF}"), ("non-ascii-before-quote", "é\"x"), ("non-ascii-before-backslash", "日本\\語"), ("euro-quote", "€5 for a \"large\" café crème"), ("comma-space", "Smith, John"), ("long-mixed", "The \"quick\" brown \\fox\\ jumps\nover\tthe lazy dog — ünïcödé 日本語 😀 // not a comment \\u{41} \\n \"\" end"), ("bom", "\u{feff}"), ("line-sep", "\u{2028}\u{2029}\u{85}"), ("escape-lookalike", "\\u{41}"), ("trailing-backslash", "abc\\"), ("spaces", "  a  "),
+        // lines of a multi-line string that look like comment lines or metadata items of a rule text
+        ("comment-line-inside", "total:\n// see notes\nend"), ("indented-comment-line-inside", "a\r\n  // b\r\nc"), ("ends-with-comment-line", "x\n//"), ("only-comment-lines", "\n// a\n// b\n"), ("cr-comment-line", "a\r// b\rc"),
+        ("meta-line-inside", "a\n@k: i1;\nb"), ("blank-lines", "a\n\n\nb"), ("trailing-spaces-lines", "a  \n  b  \n"), ("tab-comment", "a\n\t//\tb\n"),
     ] {
         s(l, t.to_string());
     }
